@@ -16,20 +16,90 @@ var (
 	phx = lib.ParseHex
 )
 
-func gen(tier string, r *lib.Rand, emit func(string)) {
-	small, listlen, nrand := 12, 5, 300
-	if tier == "thorough" {
-		small, listlen, nrand = 24, 6, 6000
+// withUnderscores inserts '_' at random places of s (possibly none, possibly runs).
+func withUnderscores(r *lib.Rand, s string) string {
+	var b strings.Builder
+	for i := 0; i <= len(s); i++ {
+		for r.Chance(1, 5) {
+			b.WriteByte('_')
+		}
+		if i < len(s) {
+			b.WriteByte(s[i])
+		}
 	}
-	bounds := []int{0, 1, 2, 31, 32, 33, 63, 64, 65, 127, 128, 129, 200}
-	// integers of interest
+	return b.String()
+}
+
+// allLists enumerates every list over alphabet of length <= maxlen, shortest first per prefix.
+func allLists(alphabet []int64, maxlen int, pred func(prev, v int64, first bool) bool, f func([]int64)) {
+	var rec func(cur []int64)
+	rec = func(cur []int64) {
+		f(append([]int64{}, cur...))
+		if len(cur) == maxlen {
+			return
+		}
+		for _, v := range alphabet {
+			if pred == nil || len(cur) == 0 || pred(cur[len(cur)-1], v, false) {
+				rec(append(cur, v))
+			}
+		}
+	}
+	rec(nil)
+}
+
+func enc(l []int64) string {
+	bs := make([]*big.Int, len(l))
+	for i, v := range l {
+		bs[i] = big.NewInt(v)
+	}
+	return lib.HexList(bs)
+}
+
+func gen(tier string, r *lib.Rand, emit func(string)) {
+	thorough := tier == "thorough"
+	nrand := 300
+	if thorough {
+		nrand = 6000
+	}
+	bounds := []int{0, 1, 2, 31, 32, 33, 63, 64, 65, 127, 128, 129, 191, 192, 193, 200}
+
+	// ---- (l, h, n): every pair up to 200 ----
+	for l := 0; l <= 200; l++ {
+		emit(fmt.Sprintf("pow2 %d", l))
+		emit(fmt.Sprintf("ones %d", l))
+		for h := 0; h <= 200; h++ {
+			emit(fmt.Sprintf("mask %d %d", l, h))
+		}
+	}
+	for _, l := range []int{255, 256, 257, 511, 512, 600, 1000} {
+		emit(fmt.Sprintf("pow2 %d", l))
+		emit(fmt.Sprintf("ones %d", l))
+		emit(fmt.Sprintf("mask %d %d", l/2, l))
+		emit(fmt.Sprintf("mask %d %d", l, l))
+		emit(fmt.Sprintf("mask %d %d", l, l/2)) // l > h: out of range, compared with the model only
+	}
+
+	// ---- integers of interest: small, 2^k, 2^k-1, 2^k+1, negatives, random up to 2^600 ----
 	xs := []*big.Int{}
-	for _, v := range []int64{0, 1, 2, 3, 4, 5, 6, 7, 8, 15, 16, 17, 255, 256, -1, -2, -3, -4, -5, -8, -255, -256} {
+	for v := int64(-70); v <= 300; v++ {
 		xs = append(xs, big.NewInt(v))
 	}
-	for _, k := range []uint{31, 32, 63, 64, 65, 127, 128, 129, 200, 599} {
-		p := new(big.Int).Lsh(big.NewInt(1), k)
-		xs = append(xs, p, new(big.Int).Sub(p, big.NewInt(1)), new(big.Int).Add(p, big.NewInt(1)), new(big.Int).Neg(p))
+	ks := []int{}
+	for k := 0; k <= 132; k++ {
+		ks = append(ks, k)
+	}
+	ks = append(ks, 190, 191, 192, 193, 194, 199, 200, 201, 255, 256, 257, 319, 320, 321, 511, 512, 513, 599, 600)
+	if thorough {
+		for k := 133; k <= 600; k++ {
+			ks = append(ks, k)
+		}
+	}
+	for _, k := range ks {
+		p := pow(k)
+		xs = append(xs, p, new(big.Int).Sub(p, big.NewInt(1)), new(big.Int).Add(p, big.NewInt(1)))
+		if k%8 == 0 || k%64 == 63 || k%64 == 1 {
+			xs = append(xs, new(big.Int).Neg(p), new(big.Int).Sub(big.NewInt(1), p))
+		}
 	}
 	for i := 0; i < nrand; i++ {
 		x := r.Bits(r.Range(1, 600))
@@ -37,32 +107,29 @@ func gen(tier string, r *lib.Rand, emit func(string)) {
 			x.Neg(x)
 		}
 		xs = append(xs, x)
-	}
-	// bit helpers
-	for l := 0; l <= small; l++ {
-		emit(fmt.Sprintf("pow2 %d", l))
-		emit(fmt.Sprintf("ones %d", l))
-		for h := 0; h <= small; h++ {
-			emit(fmt.Sprintf("mask %d %d", l, h))
+		// limb-structured: random limbs that are 0, 1, 2^64-1 or random
+		y := new(big.Int)
+		for j, n := 0, r.Range(1, 5); j < n; j++ {
+			y.Lsh(y, 64)
+			switch r.Intn(4) {
+			case 0:
+			case 1:
+				y.Or(y, big.NewInt(1))
+			case 2:
+				y.Or(y, new(big.Int).Sub(pow(64), big.NewInt(1)))
+			default:
+				y.Or(y, r.Bits(64))
+			}
 		}
+		xs = append(xs, y)
 	}
-	for _, l := range bounds {
-		emit(fmt.Sprintf("pow2 %d", l))
-		emit(fmt.Sprintf("ones %d", l))
-		for _, h := range bounds {
-			emit(fmt.Sprintf("mask %d %d", l, h))
-		}
-	}
-	for v := int64(-70); v <= 300; v++ {
-		xs = append(xs, big.NewInt(v))
-	}
-	for _, x := range xs {
+	for i, x := range xs {
 		emit("ispow2 " + hx(x))
 		emit("pow2upto " + hx(x))
 		emit("bitsset " + hx(x))
 		emit("bytesle " + hx(x))
 		if x.Sign() >= 0 {
-			emit("uint64s " + hx(x))
+			emit("uint64s " + hx(x)) // x < 0 never terminates in Go: out of range, never generated
 		}
 		y := xs[r.Intn(len(xs))]
 		emit("minmax " + hx(x) + " " + hx(y))
@@ -75,6 +142,31 @@ func gen(tier string, r *lib.Rand, emit func(string)) {
 			}
 			emit(fmt.Sprintf("extract %s %d %d", hx(x), l, h))
 		}
+		// literals: rendering of x with underscores anywhere, either case, explicit '+'
+		if x.BitLen() > 8 || i%4 == 0 {
+			t := x.Text(16)
+			emit("hex " + lib.Bytes([]byte(withUnderscores(r, t))))
+			emit("hex " + lib.Bytes([]byte(withUnderscores(r, strings.ToUpper(t)))))
+			if x.Sign() >= 0 {
+				emit("hex " + lib.Bytes([]byte("+"+withUnderscores(r, t))))
+			}
+			if x.BitLen() <= 260 {
+				emit("binary " + lib.Bytes([]byte(withUnderscores(r, x.Text(2)))))
+			}
+		}
+	}
+	// extract at the limb boundaries
+	ex := []*big.Int{new(big.Int).Sub(pow(64), big.NewInt(1)), pow(64), new(big.Int).Add(pow(64), big.NewInt(1)),
+		new(big.Int).Sub(pow(128), big.NewInt(1)), new(big.Int).Add(pow(128), big.NewInt(1)),
+		new(big.Int).Sub(pow(200), big.NewInt(1)), r.BitsExact(200), r.BitsExact(129), r.BitsExact(65)}
+	for _, x := range ex {
+		for _, l := range bounds {
+			for _, h := range bounds {
+				if l <= h {
+					emit(fmt.Sprintf("extract %s %d %d", hx(x), l, h))
+				}
+			}
+		}
 	}
 	for v := int64(0); v < 64; v++ {
 		for l := 0; l <= 7; l++ {
@@ -83,15 +175,17 @@ func gen(tier string, r *lib.Rand, emit func(string)) {
 			}
 		}
 	}
-	// hex / binary literals
-	lits := []string{"", "_", "0", "1f", "1F", "dead_beef", "_a_", "__", "-1", "+1", "-", "+", "0x1f", "g", "1 ", " 1", "12", "102", "-0", "0_0", "1_0_1", "é", "1\x00", "٣"}
+
+	// ---- malformed and hand-picked literals ----
+	lits := []string{"", "_", "0", "1f", "1F", "dead_beef", "_a_", "__", "-1", "+1", "-", "+", "-_", "_-1", "-_1", "+-1", "--1", "1-", "1+1",
+		"0x1f", "0X1F", "0b1", "g", "G", "z", "1 ", " 1", "12", "102", "-0", "+0", "0_0", "1_0_1", "é", "1\x00", "٣", "1.0", "1e3", "\x7f", "/", ":", "@", "`", "[", "{"}
 	alpha := "0123456789abcdefABCDEF_"
 	for i := 0; i < nrand; i++ {
 		n := r.Range(1, 40)
 		var b strings.Builder
 		for j := 0; j < n; j++ {
 			if r.Chance(1, 60) {
-				b.WriteByte("gG xz-+.\n"[r.Intn(9)])
+				b.WriteByte("gG xz-+.\n/:@`"[r.Intn(13)])
 			} else {
 				b.WriteByte(alpha[r.Intn(len(alpha))])
 			}
@@ -111,64 +205,89 @@ func gen(tier string, r *lib.Rand, emit func(string)) {
 		emit("hex " + lib.Bytes([]byte(s)))
 		emit("binary " + lib.Bytes([]byte(s)))
 	}
-	// lists over 0..4 up to listlen
+	// every single byte as a one-character literal and next to a digit
+	for c := 0; c < 256; c++ {
+		emit("hex " + lib.Bytes([]byte{byte(c)}))
+		emit("hex " + lib.Bytes([]byte{'1', byte(c), '2'}))
+		emit("binary " + lib.Bytes([]byte{'1', byte(c)}))
+	}
+
+	// ---- integer lists, exhaustive small scope ----
+	alphaA := []int64{-2, -1, 0, 1, 2}
+	maxA, maxIdx := 5, 4
+	if thorough {
+		maxA, maxIdx = 6, 5
+	}
 	var lists [][]int64
-	var rec func(cur []int64)
-	rec = func(cur []int64) {
-		lists = append(lists, append([]int64{}, cur...))
-		if len(cur) == listlen {
-			return
-		}
-		for v := int64(0); v <= 4; v++ {
-			rec(append(cur, v))
-		}
-	}
-	rec(nil)
-	enc := func(l []int64) string {
-		bs := make([]*big.Int, len(l))
-		for i, v := range l {
-			bs[i] = big.NewInt(v)
-		}
-		return lib.HexList(bs)
-	}
-	sd := func(l []int64) bool { // sorted distinct
-		for i := 1; i < len(l); i++ {
-			if l[i-1] >= l[i] {
-				return false
-			}
-		}
-		return true
-	}
-	var sds [][]int64
-	for _, l := range lists {
+	perList := func(l []int64) {
+		lists = append(lists, l)
 		e := enc(l)
 		emit("sort " + e)
 		emit("unique " + e)
-		if len(l) <= 4 {
-			for v := int64(0); v <= 5; v++ {
-				emit(fmt.Sprintf("index %x %s", v, e))
-				emit(fmt.Sprintf("contains %x %s", v, e))
-				emit(fmt.Sprintf("containssorted %x %s", v, e))
+		if len(l) <= 3 {
+			emit("clone " + e)
+		}
+		if len(l) <= maxIdx {
+			for v := int64(-3); v <= 2; v++ {
+				emit(fmt.Sprintf("index %s %s", hx(big.NewInt(v)), e))
+				emit(fmt.Sprintf("contains %s %s", hx(big.NewInt(v)), e))
+				emit(fmt.Sprintf("containssorted %s %s", hx(big.NewInt(v)), e)) // unsorted ones: model comparison only
 			}
 		}
-		if sd(l) {
-			sds = append(sds, l)
-		}
 	}
+	allLists(alphaA, maxA, nil, perList)
+	// length 6 (8 in thorough) over a 4-letter (3-letter) alphabet
+	if thorough {
+		allLists([]int64{0, 1, 2}, 8, nil, func(l []int64) {
+			if len(l) > maxA {
+				emit("sort " + enc(l))
+				emit("unique " + enc(l))
+			}
+		})
+	} else {
+		allLists([]int64{-1, 0, 1, 3}, 6, nil, func(l []int64) {
+			if len(l) > maxA {
+				emit("sort " + enc(l))
+				emit("unique " + enc(l))
+			}
+		})
+	}
+	// ascending lists (duplicates allowed) up to length 7: bisection, unique, index
+	allLists([]int64{0, 1, 2, 3, 4}, 7, func(prev, v int64, _ bool) bool { return prev <= v }, func(l []int64) {
+		e := enc(l)
+		emit("unique " + e)
+		for v := int64(-1); v <= 5; v++ {
+			emit(fmt.Sprintf("containssorted %s %s", hx(big.NewInt(v)), e))
+		}
+		emit(fmt.Sprintf("index %x %s", r.Intn(5), e))
+	})
+	// strictly ascending lists over 0..5 (0..6 in thorough): insert, merge, concat
+	alphaS := []int64{0, 1, 2, 3, 4, 5}
+	if thorough {
+		alphaS = append(alphaS, 6)
+	}
+	var sds [][]int64
+	allLists(alphaS, len(alphaS), func(prev, v int64, _ bool) bool { return prev < v }, func(l []int64) { sds = append(sds, l) })
 	for _, a := range sds {
-		for v := int64(0); v <= 5; v++ {
-			emit(fmt.Sprintf("insert %s %x", enc(a), v))
+		for v := int64(-1); v <= int64(len(alphaS))+1; v++ {
+			emit(fmt.Sprintf("insert %s %s", enc(a), hx(big.NewInt(v))))
 		}
 		for _, b := range sds {
 			emit("merge " + enc(a) + " " + enc(b))
+			if len(a)+len(b) <= 4 {
+				emit("concat " + enc(a) + " " + enc(b))
+			}
 		}
 	}
-	// precondition-violating merges: compared with the model, outside the theorems
-	for i := 0; i < nrand/3; i++ {
+	// precondition-violating merges and inserts: compared with the model, outside the theorems
+	for i := 0; i < nrand; i++ {
 		a, b := lists[r.Intn(len(lists))], lists[r.Intn(len(lists))]
 		emit("merge " + enc(a) + " " + enc(b))
+		emit(fmt.Sprintf("insert %s %s", enc(a), hx(big.NewInt(int64(r.Range(-3, 3))))))
+		emit("concat " + enc(a) + " " + enc(b))
 	}
-	// random longer lists with big values
+
+	// ---- random longer lists with big values ----
 	for i := 0; i < nrand; i++ {
 		n := r.Range(0, 30)
 		l := make([]*big.Int, n)
@@ -185,19 +304,23 @@ func gen(tier string, r *lib.Rand, emit func(string)) {
 		e := lib.HexList(l)
 		emit("sort " + e)
 		emit("unique " + e)
+		emit("clone " + e)
 		s := lib.CloneInts(l)
 		sort.Slice(s, func(i, j int) bool { return s[i].Cmp(s[j]) < 0 })
 		emit("unique " + lib.HexList(s))
 		var x *big.Int
-		if n > 0 && r.Bool() {
+		switch {
+		case n > 0 && r.Chance(1, 2):
 			x = l[r.Intn(n)]
-		} else {
+		case n > 0 && r.Chance(1, 2): // just beside an element
+			x = new(big.Int).Add(l[r.Intn(n)], big.NewInt(int64(r.Range(-1, 1))))
+		default:
 			x = r.Bits(r.Range(1, 130))
 		}
 		emit("index " + hx(x) + " " + e)
 		emit("contains " + hx(x) + " " + e)
 		emit("containssorted " + hx(x) + " " + lib.HexList(s))
-		u := verifhook.BigintsUnique(s)
+		u := dedup(s)
 		emit("insert " + lib.HexList(u) + " " + hx(x))
 		m := r.Range(0, 20)
 		l2 := make([]*big.Int, m)
@@ -208,23 +331,60 @@ func gen(tier string, r *lib.Rand, emit func(string)) {
 				l2[j] = r.Bits(r.Range(1, 130))
 			}
 		}
+		emit("concat " + e + " " + lib.HexList(l2))
 		sort.Slice(l2, func(i, j int) bool { return l2[i].Cmp(l2[j]) < 0 })
-		emit("merge " + lib.HexList(u) + " " + lib.HexList(verifhook.BigintsUnique(l2)))
+		emit("merge " + lib.HexList(u) + " " + lib.HexList(dedup(l2)))
 		// vectors
 		v2 := make([]*big.Int, n)
 		for j := range v2 {
 			v2[j] = r.Bits(r.Range(1, 100))
+			if r.Chance(1, 6) {
+				v2[j].Neg(v2[j])
+			}
 		}
 		emit("vadd " + e + " " + lib.HexList(v2))
+		if r.Chance(1, 4) { // length mismatch: panics
+			emit("vadd " + e + " " + lib.HexList(l2))
+		}
 		emit(fmt.Sprintf("vlsh %s %d", e, r.Intn(130)))
+	}
+
+	// ---- vectors, small scope ----
+	var vs [][]int64
+	allLists([]int64{-1, 0, 1, 2}, 2, nil, func(l []int64) { vs = append(vs, l) })
+	for _, a := range vs {
+		for _, b := range vs {
+			emit("vadd " + enc(a) + " " + enc(b))
+		}
+		for _, s := range []int{0, 1, 63, 64, 65} {
+			emit(fmt.Sprintf("vlsh %s %d", enc(a), s))
+		}
 	}
 	emit("vadd 1,2 1")
 	emit("vadd - 1")
+	emit("vadd 1 -")
+	for n := 0; n <= 8; n++ {
+		emit(fmt.Sprintf("vnew %d", n))
+	}
 	for n := 0; n <= 6; n++ {
 		for i := 0; i <= 7; i++ {
 			emit(fmt.Sprintf("basis %d %d", n, i))
+			for j := 0; j <= 7 && n <= 4; j++ {
+				emit(fmt.Sprintf("basisidx %d %d %d", n, i, j))
+			}
 		}
 	}
+}
+
+// dedup removes repeated values from an ascending list (the harness's own code).
+func dedup(s []*big.Int) []*big.Int {
+	out := []*big.Int{}
+	for i, x := range s {
+		if i == 0 || x.Cmp(s[i-1]) != 0 {
+			out = append(out, x)
+		}
+	}
+	return out
 }
 
 func vecList(v verifhook.BigVector) []*big.Int {
@@ -235,35 +395,97 @@ func vecList(v verifhook.BigVector) []*big.Int {
 	return out
 }
 
-func run(c string) string {
+// listVec is a bigvector.Vector over a given list.
+type listVec []*big.Int
+
+func (v listVec) Len() int           { return len(v) }
+func (v listVec) Idx(i int) *big.Int { return v[i] }
+
+// call runs the implementation on a case. It returns the result line and, when an argument
+// was modified by the call (other than Sort's in-place contract), a description of it.
+func call(c string) (line string, mutated string) {
 	f := strings.Split(c, " ")
+	// integer and list arguments, with deep copies taken before the call
+	var ints []*big.Int
+	var lsts [][]*big.Int
+	I := func(s string) *big.Int { x := phx(s); ints = append(ints, x); return x }
+	L := func(s string) []*big.Int { l := lib.ParseHexList(s); lsts = append(lsts, l); return l }
+	var ints0 []*big.Int
+	var lsts0 [][]*big.Int
+	var ptrs0 [][]*big.Int
+	snap := func() {
+		ints0 = lib.CloneInts(ints)
+		for _, l := range lsts {
+			lsts0 = append(lsts0, lib.CloneInts(l))
+			ptrs0 = append(ptrs0, append([]*big.Int{}, l...))
+		}
+	}
+	check := func() {
+		for i := range ints {
+			if ints[i].Cmp(ints0[i]) != 0 {
+				mutated = fmt.Sprintf("integer argument %d modified", i)
+			}
+		}
+		for i := range lsts {
+			if !lib.EqualInts(lsts[i], lsts0[i]) {
+				mutated = fmt.Sprintf("list argument %d modified", i)
+			}
+			for j := range lsts[i] {
+				if lsts[i][j] != ptrs0[i][j] {
+					mutated = fmt.Sprintf("list argument %d re-pointed", i)
+				}
+			}
+		}
+	}
 	switch f[0] {
 	case "pow2":
-		return "ok " + hx(verifhook.BigintPow2(uint(lib.Atoi(f[1]))))
-	case "ispow2":
-		return "ok " + lib.Bool(verifhook.BigintIsPow2(phx(f[1])))
-	case "pow2upto":
-		return "ok " + lib.HexList(verifhook.BigintPow2UpTo(phx(f[1])))
+		return "ok " + hx(verifhook.BigintPow2(uint(lib.Atoi(f[1])))), ""
 	case "ones":
-		return "ok " + hx(verifhook.BigintOnes(uint(lib.Atoi(f[1]))))
+		return "ok " + hx(verifhook.BigintOnes(uint(lib.Atoi(f[1])))), ""
 	case "mask":
-		return "ok " + hx(verifhook.BigintMask(uint(lib.Atoi(f[1])), uint(lib.Atoi(f[2]))))
+		return "ok " + hx(verifhook.BigintMask(uint(lib.Atoi(f[1])), uint(lib.Atoi(f[2])))), ""
+	case "ispow2":
+		x := I(f[1])
+		snap()
+		line = "ok " + lib.Bool(verifhook.BigintIsPow2(x))
+	case "pow2upto":
+		x := I(f[1])
+		snap()
+		ps := verifhook.BigintPow2UpTo(x)
+		line = "ok " + lib.HexList(ps)
+		for i := range ps { // results must be distinct objects (Clone(p) each round)
+			for j := 0; j < i; j++ {
+				if ps[i] == ps[j] {
+					mutated = "pow2upto returns aliased integers"
+				}
+			}
+		}
 	case "bitsset":
-		return "ok " + lib.IntList(verifhook.BigintBitsSet(phx(f[1])))
+		x := I(f[1])
+		snap()
+		line = "ok " + lib.IntList(verifhook.BigintBitsSet(x))
 	case "minmax":
-		mn, mx := verifhook.BigintMinMax(phx(f[1]), phx(f[2]))
-		return "ok " + hx(mn) + " " + hx(mx)
+		x, y := I(f[1]), I(f[2])
+		snap()
+		mn, mx := verifhook.BigintMinMax(x, y)
+		line = "ok " + hx(mn) + " " + hx(mx)
 	case "extract":
-		return "ok " + hx(verifhook.BigintExtract(phx(f[1]), uint(lib.Atoi(f[2])), uint(lib.Atoi(f[3]))))
+		x := I(f[1])
+		snap()
+		line = "ok " + hx(verifhook.BigintExtract(x, uint(lib.Atoi(f[2])), uint(lib.Atoi(f[3]))))
 	case "uint64s":
-		ws := verifhook.BigintUint64s(phx(f[1]))
+		x := I(f[1])
+		snap()
+		ws := verifhook.BigintUint64s(x)
 		bs := make([]*big.Int, len(ws))
 		for i, w := range ws {
 			bs[i] = new(big.Int).SetUint64(w)
 		}
-		return "ok " + lib.HexList(bs)
+		line = "ok " + lib.HexList(bs)
 	case "bytesle":
-		return "ok " + lib.Bytes(verifhook.BigintBytesLittleEndian(phx(f[1])))
+		x := I(f[1])
+		snap()
+		line = "ok " + lib.Bytes(verifhook.BigintBytesLittleEndian(x))
 	case "hex", "binary":
 		fn := verifhook.BigintHex
 		if f[0] == "binary" {
@@ -271,57 +493,105 @@ func run(c string) string {
 		}
 		x, ok := fn(string(lib.ParseBytes(f[1])))
 		if !ok {
-			return "err parse"
+			return "err parse", ""
 		}
-		return "ok " + hx(x)
+		return "ok " + hx(x), ""
 	case "sort":
 		l := lib.ParseHexList(f[1])
 		verifhook.BigintsSort(l)
-		return "ok " + lib.HexList(l)
+		return "ok " + lib.HexList(l), ""
 	case "index":
-		return fmt.Sprintf("ok %d", verifhook.BigintsIndex(phx(f[1]), lib.ParseHexList(f[2])))
+		x, l := I(f[1]), L(f[2])
+		snap()
+		line = fmt.Sprintf("ok %d", verifhook.BigintsIndex(x, l))
 	case "contains":
-		return "ok " + lib.Bool(verifhook.BigintsContains(phx(f[1]), lib.ParseHexList(f[2])))
+		x, l := I(f[1]), L(f[2])
+		snap()
+		line = "ok " + lib.Bool(verifhook.BigintsContains(x, l))
 	case "containssorted":
-		return "ok " + lib.Bool(verifhook.BigintsContainsSorted(phx(f[1]), lib.ParseHexList(f[2])))
+		x, l := I(f[1]), L(f[2])
+		snap()
+		line = "ok " + lib.Bool(verifhook.BigintsContainsSorted(x, l))
+	case "clone":
+		l := L(f[1])
+		snap()
+		got := verifhook.BigintsClone(l)
+		line = "ok " + lib.HexList(got)
+		if len(got) > 0 {
+			got[0] = big.NewInt(424242) // the clone must not share its backing array
+		}
+	case "concat":
+		a, b := L(f[1]), L(f[2])
+		snap()
+		got := verifhook.BigintsConcat(a, b)
+		line = "ok " + lib.HexList(got)
+		for i := range got {
+			got[i] = big.NewInt(424242)
+		}
 	case "unique":
-		return "ok " + lib.HexList(verifhook.BigintsUnique(lib.ParseHexList(f[1])))
+		l := L(f[1])
+		snap()
+		got := verifhook.BigintsUnique(l)
+		line = "ok " + lib.HexList(got)
+		for i := range got {
+			got[i] = big.NewInt(424242)
+		}
 	case "insert":
-		return "ok " + lib.HexList(verifhook.BigintsInsertSortedUnique(lib.ParseHexList(f[1]), phx(f[2])))
+		l, x := L(f[1]), I(f[2])
+		snap()
+		got := verifhook.BigintsInsertSortedUnique(l, x)
+		line = "ok " + lib.HexList(got)
+		for i := range got {
+			got[i] = big.NewInt(424242)
+		}
 	case "merge":
-		return "ok " + lib.HexList(verifhook.BigintsMergeUnique(lib.ParseHexList(f[1]), lib.ParseHexList(f[2])))
+		a, b := L(f[1]), L(f[2])
+		snap()
+		got := verifhook.BigintsMergeUnique(a, b)
+		line = "ok " + lib.HexList(got)
+		for i := range got {
+			got[i] = big.NewInt(424242)
+		}
 	case "vadd":
-		a, b := lib.ParseHexList(f[1]), lib.ParseHexList(f[2])
-		return "ok " + lib.HexList(vecList(verifhook.BigvectorAdd(toVec(a), toVec(b))))
+		a, b := L(f[1]), L(f[2])
+		snap()
+		line = "ok " + lib.HexList(vecList(verifhook.BigvectorAdd(listVec(a), listVec(b))))
 	case "vlsh":
-		return "ok " + lib.HexList(vecList(verifhook.BigvectorLsh(toVec(lib.ParseHexList(f[1])), uint(lib.Atoi(f[2])))))
+		a := L(f[1])
+		snap()
+		line = "ok " + lib.HexList(vecList(verifhook.BigvectorLsh(listVec(a), uint(lib.Atoi(f[2])))))
+	case "vnew":
+		return "ok " + lib.HexList(vecList(verifhook.BigvectorNew(lib.Atoi(f[1])))), ""
 	case "basis":
-		return "ok " + lib.HexList(vecList(verifhook.BigvectorNewBasis(lib.Atoi(f[1]), lib.Atoi(f[2]))))
+		return "ok " + lib.HexList(vecList(verifhook.BigvectorNewBasis(lib.Atoi(f[1]), lib.Atoi(f[2])))), ""
+	case "basisidx":
+		return "ok " + hx(verifhook.BigvectorNewBasis(lib.Atoi(f[1]), lib.Atoi(f[2])).Idx(lib.Atoi(f[3]))), ""
+	default:
+		panic("unknown case " + c)
 	}
-	panic("unknown case " + c)
+	check()
+	return line, mutated
 }
 
-// toVec builds a bigvector from a list by summing shifted basis vectors' worth
-// of values: New(n) then Add of single-element contributions is not exported,
-// so use Lsh/Add on basis vectors scaled by repeated addition is too slow;
-// instead wrap the list directly.
-type listVec []*big.Int
-
-func (v listVec) Len() int           { return len(v) }
-func (v listVec) Idx(i int) *big.Int { return v[i] }
-func toVec(l []*big.Int) verifhook.BigVector { return listVec(l) }
+func run(c string) string {
+	line, _ := call(c)
+	return line
+}
 
 // ---- oracle: the mathematical definitions, written independently ----
-
-func sortedCopy(l []*big.Int) []*big.Int {
-	s := lib.CloneInts(l)
-	sort.SliceStable(s, func(i, j int) bool { return s[i].Cmp(s[j]) < 0 })
-	return s
-}
 
 func isSD(l []*big.Int) bool {
 	for i := 1; i < len(l); i++ {
 		if l[i-1].Cmp(l[i]) >= 0 {
+			return false
+		}
+	}
+	return true
+}
+
+func isSorted(l []*big.Int) bool {
+	for i := 1; i < len(l); i++ {
+		if l[i-1].Cmp(l[i]) > 0 {
 			return false
 		}
 	}
@@ -337,32 +607,70 @@ func member(x *big.Int, l []*big.Int) bool {
 	return false
 }
 
+// sameMultiset: equal as bags of values.
+func sameMultiset(a, b []*big.Int) bool {
+	if len(a) != len(b) {
+		return false
+	}
+	cnt := map[string]int{}
+	for _, x := range a {
+		cnt[x.String()]++
+	}
+	for _, x := range b {
+		cnt[x.String()]--
+	}
+	for _, n := range cnt {
+		if n != 0 {
+			return false
+		}
+	}
+	return true
+}
+
 func pow(e int) *big.Int { return new(big.Int).Exp(big.NewInt(2), big.NewInt(int64(e)), nil) }
+
+var one = big.NewInt(1)
 
 func oracle(c, res string) string {
 	f := strings.Split(c, " ")
 	if strings.HasPrefix(res, "panic") {
-		if c == "vadd 1,2 1" || c == "vadd - 1" || (f[0] == "vadd" && len(lib.ParseHexList(f[1])) != len(lib.ParseHexList(f[2]))) {
-			return ""
+		switch f[0] {
+		case "vadd":
+			if res == "panic lenmismatch" && len(lib.ParseHexList(f[1])) != len(lib.ParseHexList(f[2])) {
+				return ""
+			}
+		case "basisidx":
+			if res == "panic index" && lib.Atoi(f[3]) >= lib.Atoi(f[1]) {
+				return ""
+			}
 		}
-		return "panic: " + res
+		return "unexpected " + res
+	}
+	// arguments unmodified, result reproducible: run again on fresh copies
+	if f[0] != "sort" {
+		line, mut := call(c)
+		if mut != "" {
+			return mut
+		}
+		if line != res {
+			return "result not reproducible"
+		}
 	}
 	payload := strings.TrimPrefix(res, "ok ")
-	// argument immutability: re-run on fresh copies and compare the copies afterwards
 	switch f[0] {
 	case "pow2":
 		if phx(payload).Cmp(pow(lib.Atoi(f[1]))) != 0 {
 			return "pow2 != 2^e"
 		}
 	case "ones":
-		want := new(big.Int).Sub(pow(lib.Atoi(f[1])), big.NewInt(1))
+		want := new(big.Int).Sub(pow(lib.Atoi(f[1])), one)
 		if phx(payload).Cmp(want) != 0 {
 			return "ones(n) != 2^n-1"
 		}
 	case "mask":
 		l, h := lib.Atoi(f[1]), lib.Atoi(f[2])
 		if l > h {
-			return ""
+			return "" // out of range
 		}
 		m := phx(payload)
 		if m.Sign() < 0 {
@@ -382,28 +690,21 @@ func oracle(c, res string) string {
 		}
 	case "extract":
 		x, l, h := phx(f[1]), lib.Atoi(f[2]), lib.Atoi(f[3])
-		x0 := new(big.Int).Set(x)
 		if x.Sign() < 0 || l > h {
-			return ""
-		}
-		got := verifhook.BigintExtract(x, uint(l), uint(h))
-		if x.Cmp(x0) != 0 {
-			return "extract modified its argument"
+			return "" // out of range
 		}
 		q := new(big.Int).Div(x, pow(l))
 		want := q.Mod(q, pow(h-l))
-		if got.Cmp(want) != 0 || phx(payload).Cmp(want) != 0 {
+		if phx(payload).Cmp(want) != 0 {
 			return "extract != floor(x/2^l) mod 2^(h-l)"
 		}
 	case "ispow2":
 		x := phx(f[1])
 		want := false
-		if x.Sign() > 0 {
-			cnt := 0
-			for i := 0; i < x.BitLen(); i++ {
-				cnt += int(x.Bit(i))
+		for e := 0; e <= x.BitLen(); e++ {
+			if pow(e).Cmp(x) == 0 {
+				want = true
 			}
-			want = cnt == 1
 		}
 		if payload != lib.Bool(want) {
 			return "ispow2 wrong"
@@ -423,12 +724,12 @@ func oracle(c, res string) string {
 	case "bitsset":
 		x := phx(f[1])
 		if x.Sign() < 0 {
-			return ""
+			return "" // out of range
 		}
 		got := lib.ParseIntList(payload)
 		sum := new(big.Int)
 		for i, b := range got {
-			if i > 0 && got[i-1] >= b {
+			if b < 0 || (i > 0 && got[i-1] >= b) {
 				return "bitsset not ascending"
 			}
 			sum.Add(sum, pow(b))
@@ -445,32 +746,27 @@ func oracle(c, res string) string {
 		}
 	case "uint64s":
 		x := phx(f[1])
-		x0 := new(big.Int).Set(x)
-		ws := verifhook.BigintUint64s(x)
-		if x.Cmp(x0) != 0 {
-			return "uint64s modified its argument"
-		}
+		ws := lib.ParseHexList(payload)
 		sum := new(big.Int)
 		for i := len(ws) - 1; i >= 0; i-- {
-			sum.Lsh(sum, 64)
-			sum.Add(sum, new(big.Int).SetUint64(ws[i]))
+			if ws[i].Sign() < 0 || ws[i].Cmp(pow(64)) >= 0 {
+				return "uint64s limb out of range"
+			}
+			sum.Mul(sum, pow(64))
+			sum.Add(sum, ws[i])
 		}
 		if sum.Cmp(x) != 0 {
 			return "uint64s limbs do not sum to x"
 		}
-		if len(ws) > 0 && ws[len(ws)-1] == 0 {
+		if len(ws) > 0 && ws[len(ws)-1].Sign() == 0 {
 			return "uint64s top limb zero"
-		}
-		got := lib.ParseHexList(payload)
-		if len(got) != len(ws) {
-			return "uint64s unstable"
 		}
 	case "bytesle":
 		x := phx(f[1])
 		b := lib.ParseBytes(payload)
 		sum := new(big.Int)
 		for i := len(b) - 1; i >= 0; i-- {
-			sum.Lsh(sum, 8)
+			sum.Mul(sum, big.NewInt(256))
 			sum.Add(sum, big.NewInt(int64(b[i])))
 		}
 		if sum.CmpAbs(x) != 0 {
@@ -485,16 +781,23 @@ func oracle(c, res string) string {
 		if f[0] == "binary" {
 			base, digits = 2, "01"
 		}
-		s := strings.ToLower(strings.ReplaceAll(string(lib.ParseBytes(f[1])), "_", ""))
+		raw := lib.ParseBytes(f[1])
+		s := make([]byte, 0, len(raw))
+		for _, ch := range raw {
+			if ch != '_' {
+				if 'A' <= ch && ch <= 'Z' {
+					ch += 'a' - 'A'
+				}
+				s = append(s, ch)
+			}
+		}
 		neg := false
-		if strings.HasPrefix(s, "-") {
-			neg, s = true, s[1:]
-		} else if strings.HasPrefix(s, "+") {
-			s = s[1:]
+		if len(s) > 0 && (s[0] == '-' || s[0] == '+') {
+			neg, s = s[0] == '-', s[1:]
 		}
 		valid := len(s) > 0
 		v := new(big.Int)
-		for _, ch := range []byte(s) {
+		for _, ch := range s {
 			d := strings.IndexByte(digits, ch)
 			if d < 0 {
 				valid = false
@@ -519,13 +822,15 @@ func oracle(c, res string) string {
 			return "literal value wrong"
 		}
 	case "sort":
-		l := lib.ParseHexList(f[1])
-		if !lib.EqualInts(lib.ParseHexList(payload), sortedCopy(l)) {
-			return "sort result is not the sorted permutation"
+		l, got := lib.ParseHexList(f[1]), lib.ParseHexList(payload)
+		if !isSorted(got) {
+			return "sort result not ascending"
+		}
+		if !sameMultiset(l, got) {
+			return "sort result is not a permutation of the input"
 		}
 	case "index", "contains", "containssorted":
 		x, l := phx(f[1]), lib.ParseHexList(f[2])
-		l0 := lib.CloneInts(l)
 		first := -1
 		for i, y := range l {
 			if y.Cmp(x) == 0 {
@@ -543,12 +848,18 @@ func oracle(c, res string) string {
 				return "contains wrong"
 			}
 		case "containssorted":
-			if sort.SliceIsSorted(l, func(i, j int) bool { return l[i].Cmp(l[j]) < 0 }) && payload != lib.Bool(first >= 0) {
+			if isSorted(l) && payload != lib.Bool(first >= 0) {
 				return "containssorted wrong on a sorted list"
 			}
 		}
-		if !lib.EqualInts(l, l0) {
-			return "argument modified"
+	case "clone":
+		if !lib.EqualInts(lib.ParseHexList(payload), lib.ParseHexList(f[1])) {
+			return "clone differs"
+		}
+	case "concat":
+		want := append(lib.ParseHexList(f[1]), lib.ParseHexList(f[2])...)
+		if !lib.EqualInts(lib.ParseHexList(payload), want) {
+			return "concat is not xs followed by ys"
 		}
 	case "unique":
 		l := lib.ParseHexList(f[1])
@@ -558,8 +869,12 @@ func oracle(c, res string) string {
 				want = append(want, x)
 			}
 		}
-		if !lib.EqualInts(lib.ParseHexList(payload), want) {
+		got := lib.ParseHexList(payload)
+		if !lib.EqualInts(got, want) {
 			return "unique is not consecutive de-duplication"
+		}
+		if isSorted(l) && !isSD(got) {
+			return "unique of a sorted list is not strictly ascending"
 		}
 	case "insert", "merge":
 		var a, b []*big.Int
@@ -569,21 +884,9 @@ func oracle(c, res string) string {
 			a, b = lib.ParseHexList(f[1]), lib.ParseHexList(f[2])
 		}
 		if !isSD(a) || !isSD(b) {
-			return ""
+			return "" // out of range
 		}
-		a0, b0 := lib.CloneInts(a), lib.CloneInts(b)
-		var got []*big.Int
-		if f[0] == "insert" {
-			got = verifhook.BigintsInsertSortedUnique(a, b[0])
-		} else {
-			got = verifhook.BigintsMergeUnique(a, b)
-		}
-		if !lib.EqualInts(a, a0) || !lib.EqualInts(b, b0) {
-			return "argument modified"
-		}
-		if !lib.EqualInts(got, lib.ParseHexList(payload)) {
-			return "unstable"
-		}
+		got := lib.ParseHexList(payload)
 		if !isSD(got) {
 			return "result not sorted distinct"
 		}
@@ -603,6 +906,9 @@ func oracle(c, res string) string {
 			return "vadd accepted a length mismatch"
 		}
 		got := lib.ParseHexList(payload)
+		if len(got) != len(a) {
+			return "vadd length"
+		}
 		for i := range a {
 			if got[i].Cmp(new(big.Int).Add(a[i], b[i])) != 0 {
 				return "vadd wrong"
@@ -617,6 +923,16 @@ func oracle(c, res string) string {
 		for i := range a {
 			if got[i].Cmp(new(big.Int).Mul(a[i], pow(s))) != 0 {
 				return "vlsh wrong"
+			}
+		}
+	case "vnew":
+		got := lib.ParseHexList(payload)
+		if len(got) != lib.Atoi(f[1]) {
+			return "vnew length"
+		}
+		for _, x := range got {
+			if x.Sign() != 0 {
+				return "vnew not zero"
 			}
 		}
 	case "basis":
@@ -634,6 +950,20 @@ func oracle(c, res string) string {
 				return "basis wrong"
 			}
 		}
+	case "basisidx":
+		n, i, j := lib.Atoi(f[1]), lib.Atoi(f[2]), lib.Atoi(f[3])
+		if j >= n {
+			return "basis Idx out of range did not panic"
+		}
+		want := "0"
+		if j == i {
+			want = "1"
+		}
+		if payload != want {
+			return "basis Idx wrong"
+		}
+	default:
+		return "no oracle for " + f[0]
 	}
 	return ""
 }
@@ -645,11 +975,20 @@ func main() {
 		Run:    run,
 		Oracle: oracle,
 		Nontrivial: func(c, res string) bool {
-			return strings.HasPrefix(res, "ok ") && len(c) > 12
+			// the result is not the degenerate one (empty list, zero, false on an empty input)
+			if strings.HasPrefix(res, "panic") || res == "err parse" {
+				return true
+			}
+			return res != "ok -" && res != "ok 0" && !strings.HasSuffix(c, " -")
 		},
 		PanicClass: func(v interface{}) string {
-			if s, ok := v.(string); ok && strings.Contains(s, "length mismatch") {
-				return "lenmismatch"
+			if s, ok := v.(string); ok {
+				switch {
+				case strings.Contains(s, "length mismatch"):
+					return "lenmismatch"
+				case strings.Contains(s, "index out of range"):
+					return "index"
+				}
 			}
 			return "other"
 		},
